@@ -1918,8 +1918,7 @@ int xmp_start_player(xmp_context opaque, int rate, int format)
 
 	/* Set default volume and mute status */
 	for (i = 0; i < mod->chn; i++) {
-		if (mod->xxc[i].flg & XMP_CHANNEL_MUTE)
-			p->channel_mute[i] = 1;
+		p->channel_mute[i] = (mod->xxc[i].flg & XMP_CHANNEL_MUTE) ? 1 : 0;
 		p->channel_vol[i] = 100;
 	}
 	for (i = mod->chn; i < XMP_MAX_CHANNELS; i++) {
